@@ -64,6 +64,7 @@ func newRes16() vRes16 { return vRes16{Eq: []string{}, Idx: []int{}, S: []string
 
 type vE16 struct {
 	vCase16
+	Hist string `json:"hist"` // what the process-wide parser did before this call: fresh / after_rich / after_bare / concurrent
 	Src  string `json:"src"`
 	Res  vRes16 `json:"res"`
 	Info string `json:"info,omitempty"`
@@ -77,6 +78,7 @@ type vPlan16 struct {
 	MutPerPos int      `json:"mutperpos"` // mutations per byte position of each base certificate
 	TruncStep int      `json:"truncstep"` // every n-th truncation length
 	MintEvery int      `json:"mintevery"` // every n-th ModHex case also through a minted and parsed certificate
+	Alt       int      `json:"alt"`       // pairs of (extension-rich, extension-free) certificates parsed alternately on one goroutine
 	Reps      int      `json:"reps"`      // how often every shape is minted (different random contents)
 	NRandMH   int      `json:"nrandmh"`   // direction B: random serial-extension values
 	Raw       []string `json:"raw"`       // replay: inputs (hex) to push through parser + extractor
@@ -471,6 +473,7 @@ type vStats16 struct {
 	Pem      int            `json:"pem"`
 	ModHex   int            `json:"modhex"`
 	Minted   int            `json:"modhex_minted"`
+	Alt      int            `json:"alt"`
 	Mut      int            `json:"mut"`
 	MutBoth  int            `json:"mut_both_parsed"`
 	MutY     int            `json:"mut_lenient_parsed"`
@@ -499,17 +502,20 @@ func (x *vRun16) emit(tid string, e *vE16) {
 	x.tr.Emit(vEvent{Ev: "step", P: "C16", Tid: tid, E: e})
 }
 
-// parseObs mints one shape and observes both parsers (safe for concurrent use: its own generator)
-func (x *vRun16) parseObs(ci, rep int, c vCase16) (*vE16, bool) {
+// parseObs mints one shape and observes both parsers (safe for concurrent use: its own generator). Where the lenient
+// parser delivers a certificate, the extractor is run on it too: the serial extension the certificate REALLY carries
+// is read with crypto/x509 from the conforming encoding, what ModHex returned is recorded as data.
+func (x *vRun16) parseObs(ci, rep int, c vCase16, hist string) ([]*vE16, bool) {
 	m := *x.m
 	m.r = verifh.NewRand("attest16-shape", int64(ci)+int64(rep)*1000003)
 	mt := m.mint(c, nil)
-	e := &vE16{vCase16: c, Src: "A", Res: newRes16()}
+	e := &vE16{vCase16: c, Hist: hist, Src: "A", Res: newRes16()}
 	y, s, pan := parseBoth(mt.der)
 	e.Res.Pan, e.Res.Yok, e.Res.Sok = pan, y != nil, s != nil
 	if pan {
 		e.Der = hex.EncodeToString(mt.der)
 	}
+	out := []*vE16{e}
 	if y != nil {
 		ref := s
 		if ref == nil { // the standard parser refuses this input: compare with its view of the conforming twin
@@ -517,13 +523,21 @@ func (x *vRun16) parseObs(ci, rep int, c vCase16) (*vE16, bool) {
 		}
 		if ref != nil {
 			e.Res.Eq = compare(y, ref, mt.raw, mt.tbs, mt.sig)
+			if n, val := serialExt(ref); n <= 1 {
+				mc := vCase16{P: "C16", Op: "modhex", Kt: c.Kt, Sa: c.Sa, Exts: c.Exts, Tail: "clean", Lead: "none", Trail: "none", Present: n == 1, Val: val}
+				me := &vE16{vCase16: mc, Hist: hist, Src: "A-parsed", Res: modHexObs(y)}
+				if me.Res.Pan {
+					me.Der = hex.EncodeToString(mt.der)
+				}
+				out = append(out, me)
+			}
 		}
 	}
-	return e, c.Tail == "clean" && c.Kt != "rsa-nonull" && s == nil
+	return out, c.Tail == "clean" && c.Kt != "rsa-nonull" && s == nil
 }
 
 func (x *vRun16) parseCases(cases []vCase16, idx []int, rep int) {
-	out := make([]*vE16, len(idx))
+	out := make([][]*vE16, len(idx))
 	rej := make([]bool, len(idx))
 	var wg sync.WaitGroup
 	for w := 0; w < 4; w++ {
@@ -531,17 +545,69 @@ func (x *vRun16) parseCases(cases []vCase16, idx []int, rep int) {
 		go func(w int) {
 			defer wg.Done()
 			for i := w; i < len(idx); i += 4 {
-				out[i], rej[i] = x.parseObs(idx[i], rep, cases[idx[i]])
+				out[i], rej[i] = x.parseObs(idx[i], rep, cases[idx[i]], "concurrent")
 			}
 		}(w)
 	}
 	wg.Wait()
-	for i, e := range out {
+	for i, es := range out {
 		if rej[i] {
 			x.st.StdRej++
 		}
 		x.st.Parse++
-		x.emit(fmt.Sprintf("p%d-%d", idx[i], rep), e)
+		for j, e := range es {
+			if j > 0 {
+				x.st.ModHex++
+			}
+			x.emit(fmt.Sprintf("p%d-%d-%d", idx[i], rep, j), e)
+		}
+	}
+}
+
+// alternate parses extension-rich and extension-free certificates in turn on ONE goroutine (whatever the parser keeps
+// between calls would show), then repeats the first ones: the result of a call must not depend on the calls before it.
+func (x *vRun16) alternate(cases []vCase16, idx []int, n int) {
+	var rich, bare []int
+	for _, ci := range idx {
+		c := cases[ci]
+		if c.Tail != "clean" {
+			continue
+		}
+		if len(c.Exts) == 0 {
+			bare = append(bare, ci)
+		} else if has(c.Exts, "vendor") {
+			rich = append(rich, ci)
+		}
+	}
+	if len(rich) == 0 || len(bare) == 0 {
+		return
+	}
+	r := verifh.NewRand("attest16-alt", 0)
+	hist := "fresh"
+	run := func(tid string, ci, rep int) {
+		es, rej := x.parseObs(ci, rep, cases[ci], hist)
+		if rej {
+			x.st.StdRej++
+		}
+		x.st.Alt++
+		for j, e := range es {
+			x.emit(fmt.Sprintf("%s-%d", tid, j), e)
+		}
+		if len(cases[ci].Exts) == 0 {
+			hist = "after_bare"
+		} else {
+			hist = "after_rich"
+		}
+	}
+	for i := 0; i < n; i++ {
+		ri, bi := rich[r.Intn(len(rich))], bare[r.Intn(len(bare))]
+		run(fmt.Sprintf("q%d-r", i), ri, 100+i)
+		run(fmt.Sprintf("q%d-b", i), bi, 100+i)
+		if i%5 == 0 { // the same two again, and two extension-free ones in a row
+			run(fmt.Sprintf("q%d-r2", i), ri, 100+i)
+			run(fmt.Sprintf("q%d-b2", i), bi, 100+i)
+			run(fmt.Sprintf("q%d-b3", i), bare[r.Intn(len(bare))], 100+i)
+		}
 	}
 }
 
@@ -630,7 +696,7 @@ func (x *vRun16) modhexCase(ci int, c vCase16, mintEvery int) {
 		exts = append(exts[:at:at], append([]pkix.Extension{{Id: oidSerial, Value: val}}, exts[at:]...)...)
 	}
 	cert := &x509.Certificate{Extensions: exts}
-	e := &vE16{vCase16: c, Src: "A-direct"}
+	e := &vE16{vCase16: c, Hist: "fresh", Src: "A-direct"}
 	e.Res = modHexObs(cert)
 	x.st.ModHex++
 	x.emit(fmt.Sprintf("h%d", ci), e)
@@ -644,15 +710,20 @@ func (x *vRun16) modhexCase(ci int, c vCase16, mintEvery int) {
 			sh.Exts = []string{"ku", "bc"}
 		}
 		mt := x.m.mint(sh, extra)
+		// harness-side sanity with crypto/x509 on the conforming encoding, never with the parser under test
+		ref, err := x509.ParseCertificate(mt.ref)
+		if err != nil {
+			panic(fmt.Sprintf("harness: crypto/x509 refuses a certificate minted by crypto/x509: %v", err))
+		}
+		n, got := serialExt(ref)
+		if (c.Present && (n != 1 || fmt.Sprint(got) != fmt.Sprint(c.Val))) || (!c.Present && n != 0) {
+			panic(fmt.Sprintf("harness: minted certificate does not carry the serial extension value %v (got %d: %v)", c.Val, n, got))
+		}
 		y, _, pan := parseBoth(mt.der)
-		e2 := &vE16{vCase16: c, Src: "A-minted"}
+		e2 := &vE16{vCase16: c, Hist: "after_modhex", Src: "A-minted"}
 		if pan || y == nil {
 			// the lenient parser did not deliver a certificate: nothing to extract from (the parse verdict is judged elsewhere)
 			return
-		}
-		n, got := serialExt(y)
-		if (c.Present && (n != 1 || fmt.Sprint(got) != fmt.Sprint(c.Val))) || (!c.Present && n != 0) {
-			panic(fmt.Sprintf("harness: minted certificate does not carry the serial extension value %v (got %d: %v)", c.Val, n, got))
 		}
 		e2.Res = modHexObs(y)
 		x.st.ModHex++
@@ -736,6 +807,7 @@ func TestVerifAttest16(t *testing.T) {
 	for rep := 0; rep < plan.Reps || rep == 0; rep++ {
 		x.parseCases(all16, pidx, rep)
 	}
+	x.alternate(all16, pidx, plan.Alt)
 	for ci, c := range all16 {
 		switch c.Op {
 		case "pem":
